@@ -381,6 +381,48 @@ theorem src_tie_checkorder_getters (s : Src.CheckOrder.CheckOrder) :
     Src.CheckOrder.CheckOrder.max_way_id s = (checkOfSrc s).maxWay ∧
     Src.CheckOrder.CheckOrder.max_relation_id s = (checkOfSrc s).maxRel := ⟨rfl, rfl, rfl⟩
 
+/-- `operator>`, `operator<=`, `operator>=`, `operator!=` on OSMObject as the CURRENT source defines them:
+    all four are the one order `operator<` (resp. `operator==`) read the other way round — in particular `<=` is
+    NOT "less or `==`" (see `le_is_not_lt_or_eq`). -/
+theorem src_tie_object_gt_le_ge_ne (l r : Src.Object.OSMObject)
+    (hl : Src.Object.OSMObject.typed l = true) (hr : Src.Object.OSMObject.typed r = true) :
+    Src.Object.op_gt_OSMObject_OSMObject l r = objGt (objOfSrc l) (objOfSrc r) ∧
+    Src.Object.op_le_OSMObject_OSMObject l r = objLe (objOfSrc l) (objOfSrc r) ∧
+    Src.Object.op_ge_OSMObject_OSMObject l r = objGe (objOfSrc l) (objOfSrc r) ∧
+    Src.Object.op_ne_OSMObject_OSMObject l r = objNe (objOfSrc l) (objOfSrc r) := by
+  have h1 := src_tie_object_lt l r hl hr
+  have h2 := src_tie_object_lt r l hr hl
+  have h3 := src_tie_object_eq l r hl hr
+  refine ⟨?_, ?_, ?_, ?_⟩
+  · show Src.Object.op_lt_OSMObject_OSMObject r l = objLt (objOfSrc r) (objOfSrc l); exact h2
+  · show (!Src.Object.op_lt_OSMObject_OSMObject r l) = !objLt (objOfSrc r) (objOfSrc l); rw [h2]
+  · show (!Src.Object.op_lt_OSMObject_OSMObject l r) = !objLt (objOfSrc l) (objOfSrc r); rw [h1]
+  · show (!Src.Object.op_eq_OSMObject_OSMObject l r) = !objEq (objOfSrc l) (objOfSrc r); rw [h3]
+
 end SrcTies
+
+/-! ## the derived relational operators describe the same order -/
+
+/-- mutual consistency of the four relational operators, for ALL objects: `a > b ↔ b < a`, `a <= b ↔ ¬ a > b`,
+    `a >= b ↔ ¬ a < b`, and never `a < b` together with `b <= a` -/
+theorem relational_operators_one_order (a b : Obj) :
+    objGt a b = objLt b a ∧ objLe a b = !objGt a b ∧ objGe a b = !objLt a b ∧
+    (objLt a b = true → objLe b a = false) ∧ objNe a b = !objEq a b := by
+  refine ⟨rfl, rfl, rfl, ?_, rfl⟩
+  intro h; simp [objLe, h]
+
+/-- `<=` is total on objects whose timestamps are all set (or all unset: same proof through asymmetry) -/
+theorem le_total_ts_set (a b : Obj) (ha : TsSet a) (hb : TsSet b) : objLe a b = true ∨ objLe b a = true := by
+  by_cases h : objLt b a = true
+  · right
+    have := lt_strict_weak_ts_set.asymm b a hb ha h
+    simp [objLe, this]
+  · left; simp [objLe, h]
+
+/-- the "textbook" definition `a <= b := a < b || a == b` is a DIFFERENT relation: `==` ignores the timestamps
+    that `<` orders by (two versions 1 of node 1 with timestamps 5 and 9) -/
+theorem le_is_not_lt_or_eq :
+    ∃ a b : Obj, TsSet a ∧ TsSet b ∧ objLe a b ≠ (objLt a b || objEq a b) := by
+  refine ⟨⟨1, 1, 1, 9, true⟩, ⟨1, 1, 1, 5, true⟩, by simp [TsSet], by simp [TsSet], by decide⟩
 
 end Osmium.Order.C16
